@@ -184,7 +184,7 @@ def make_replayer(ls, rs, label, fn, backend):
     return replay
 
 
-def n5_run(carve):
+def n5_run(carve, literal_preds=True):
     """native join matrix: exact row combinations against a hand-computed expectation, on Polars and SQLite"""
     import warnings
 
@@ -219,6 +219,10 @@ def n5_run(carve):
         "float_frac_le_int": (lambda l, r: r.zf <= l.z, lambda a, b: a[4] is not None and b[3] is not None and b[3] <= a[4]),
         "eq_and_int_ge_float_frac": (lambda l, r: (l.k == r.k) & (l.z >= r.zf), lambda a, b: a[0] is not None and b[0] is not None and a[0] == b[0] and a[4] is not None and b[3] is not None and a[4] >= b[3]),
         "int_eq_float_frac": (lambda l, r: l.z == r.zf, lambda a, b: a[4] is not None and b[3] is not None and a[4] == b[3]),
+        # literal conjuncts: False matches no pair, True is neutral
+        "eq_and_literal_false": (lambda l, r: (l.k == r.k) & False, lambda a, b: False),
+        "literal_false": (lambda l, r: pdt.lit(False), lambda a, b: False),
+        "eq_and_literal_true": (lambda l, r: (l.k == r.k) & True, lambda a, b: a[0] is not None and b[0] is not None and a[0] == b[0]),
         "lt_float_int": (lambda l, r: l.kf < r.k, lambda a, b: a[3] is not None and b[0] is not None and a[3] < b[0]),
     }
     n, bad = 0, []
@@ -249,6 +253,8 @@ def n5_run(carve):
                 R2.write_database("r2", eng)
                 l, r, r2 = pdt.Table("l", pdt.SqlAlchemy(eng)), pdt.Table("r", pdt.SqlAlchemy(eng)), pdt.Table("r2", pdt.SqlAlchemy(eng))
             for pname, (on, py) in preds.items():
+                if ("literal_predicate" in carve or not literal_preds) and pname in ("eq_and_literal_false", "literal_false"):
+                    continue
                 for how in ("inner", "left", "full"):
                     if how == "full" and pname not in ("eq", "eq_swapped", "two_eq", "two_eq_second_swapped", "expr_key", "eq_float_int", "eq_int_float_swapped", "int_eq_float_frac"):
                         continue
@@ -332,6 +338,11 @@ def n5_run(carve):
     return _enum_outcome("every join kind x predicate shape x operand variant yields exactly the expected row combinations (left and right values read through the original column references)", n, bad)
 
 
+def n5_core_run(carve):
+    """the N5 matrix as registered under other properties (without the literal-False predicates of F-join-literal-predicate-polars, which is C06's finding)"""
+    return n5_run(carve, literal_preds=False)
+
+
 def n6_run(carve):
     """the join wrappers are the join verb with the documented `how`: same node (how, validate, on) and same visible columns"""
     import polars as pl
@@ -374,7 +385,7 @@ def obligations(tier):
                 obs.append(Obligation(f"C06/N1-N4/{backend}/{ls}x{rs}/{label}", "N1+N2+N4", f"join({label}) of {ls} and {rs} on {backend}", make_run(pf, label, info, fn, backend),
                                       functions=f, bounded=f"table widths {ls.w} and {rs.w} (names symbolic, collisions explored)", tags=("cross_backend",),
                                       carveouts={"join_helper_names": "no column is named __INDEX__ or <left column>_right"}, replayer=make_replayer(ls, rs, label, fn, "polars" if backend == "polars" else "sqlite")))
-    obs.append(Obligation("C06/N5/native_matrix", "N5", "exact row combinations of inner / left / full joins natively", n5_run, functions=fns_p + [fi(H.sql_backend.SqlImpl.compile_ast)],
+    obs.append(Obligation("C06/N5/native_matrix", "N5", "exact row combinations of inner / left / full joins natively", n5_run, functions=fns_p + [fi(H.sql_backend.SqlImpl.compile_ast)], carveouts={"literal_predicate": "a literal False conjunct in the join condition"},
                           bounded="20 predicate shapes (incl. pdt.all(...) of three predicates) (incl. Float64 vs Int64 keys - also fractional values against integer keys -, equalities written from either side) x 3 join kinds x 13 operand variants (plain, hidden right key, filtered left / right (also below alias(), also for full joins), constant or computed non-null-preserving column on either side, also below alias() and below a nested join) x 2 backends on one pair of 6-row tables with nulls, duplicates and unmatched rows"))
     obs.append(Obligation("C06/N6/wrappers", "N6", "inner_join / left_join / full_join / cross_join are join(how=...)", n6_run, functions=[fi(verbs_mod.inner_join), fi(verbs_mod.left_join), fi(verbs_mod.full_join), fi(verbs_mod.cross_join), fi(verbs_mod.join)],
                           bounded="3 wrappers x 3 keyword sets x 3 shapes of `on` (+ cross_join); the wrappers are straight-line calls"))
